@@ -74,6 +74,8 @@ def rewrite(t, f):
         return ("call", t[1], tuple(rewrite(a, f) for a in t[2]), t[3])
     if k == "discr":
         return ("discr", rewrite(t[1], f)) + tuple(t[2:])
+    if k == "loopvar" and len(t) > 2:
+        return ("loopvar", t[1], rewrite(t[2], f)) + tuple(t[3:])
     return t
 
 
